@@ -53,6 +53,15 @@ impl ConditionEvaluatorBuilder {
                         op.clone().into(),
                         str_value.to_string(),
                     );
+                } else if let ScalarValue::Boolean(b) = &scalar_value {
+                    // Bare `WHERE flag` arrives as `flag = Bool(true)`; bool fields compare
+                    // by their "true"/"false" text, like the unquoted literals `true`/`false`
+                    info!(target: "sneldb::evaluator", "Adding bool condition: {} {:?} {}", field, op, b);
+                    self.evaluator.add_string_condition(
+                        field.clone(),
+                        op.clone().into(),
+                        b.to_string(),
+                    );
                 } else {
                     info!(
                         target: "sneldb::evaluator",
